@@ -7,6 +7,8 @@ import Proofs.C16EventsAgreeRefresh
 import Proofs.C16EventsFollow
 import Proofs.C16EventsDebounce
 import Proofs.C16Refresh
+import Proofs.C16EventsPolicyNew
+import Proofs.C16
 /-! # C16 — events, refreshes and their propagation to the connection pool and the selection policy
 
 Model: `Model/ClusterView.lean` (the view of a Session: ring + pools + policy host lists + host states +
@@ -561,5 +563,177 @@ theorem C16_refresh_debounced (I : Nat) (d : RDeb) (as : List RAct) (hr : ReqsBe
 example :
     let as : List RAct := [.debounce, .tick, .debounce, .debounce, .tick, .debounce, .debounce, .tick, .tick, .tick, .tick, .wake, .done, .tick, .tick, .wake]
     ReqsBefore 3 3 {} as ∧ (rrun 3 {} as).refreshes = 1 := by decide
+
+/-! ### after a refresh the view follows the report -/
+
+/-- `C16_view_follows_report`. For every reachable view (`Agree`) and every report whose accepted hosts
+have pairwise distinct host ids, `refreshRing` succeeds and afterwards:
+(1) the host ids of the ring are exactly the ids of the accepted reported hosts;
+(2) the invariant `Agree` holds again, so that (3) every pool and (4) every policy entry belongs to an
+accepted reported host — vanished and newly filtered hosts are gone from ring, pools and policy;
+(5) every host id that is new in the ring has a pool (new nodes are connected to);
+(6) the ring's object of every accepted reported host carries the reported node address and connect
+address (a node whose address changed is replaced). -/
+theorem C16_view_follows_report (env : Env) (v : View) (ha : Agree env v) (reported : List RHost)
+    (hn : ((reported.filter (fun h => !env.filter h)).map (·.id)).Nodup) :
+    let r := v.refresh env reported
+    r.2 = .ok ∧
+    (∀ id, id ∈ r.1.ring.ids ↔ ∃ h ∈ reported, env.filter h = false ∧ h.id = id) ∧
+    Agree env r.1 ∧
+    (∀ e ∈ r.1.pools, ∃ h ∈ reported, env.filter h = false ∧ h.id = e.1) ∧
+    (∀ x ∈ r.1.pol.all, ∃ h ∈ reported, env.filter h = false ∧ h.id = x.id) ∧
+    (∀ id, id ∈ r.1.ring.ids → id ∉ v.ring.ids → hasKey r.1.pools id = true) ∧
+    (∀ h ∈ reported, env.filter h = false → ∃ s, r.1.ring.getHost h.id = some s ∧ s.addr = h.addr ∧ s.caddr = h.caddr) := by
+  intro r
+  have hsim := refreshV_ring env v reported
+  have hex := C16_refresh_exact v.ring ha.sinv.wf env.filter reported hn
+  have hok : r.2 = .ok := by rw [hsim.2]; exact hex.1
+  have hids : ∀ id, id ∈ r.1.ring.ids ↔ ∃ h ∈ reported, env.filter h = false ∧ h.id = id := by
+    intro id; rw [hsim.1]; exact hex.2.1 id
+  have hag : Agree env r.1 := agree_refresh env v ha reported
+  refine ⟨hok, hids, hag, ?_, ?_, ?_, ?_⟩
+  · intro e he
+    exact (hids e.1).mp (lookup_mem_keys _ _ _ (hag.pools e he))
+  · intro x hx
+    exact (hids x.id).mp (lookup_mem_keys _ _ _ (hag.pol x hx))
+  · exact newFilled_refresh env v reported
+  · intro h hh hf
+    obtain ⟨s, hs, hsa⟩ := stored_refresh env v ha reported hn hok h hh hf
+    exact ⟨s, hs, hsa.1, hsa.2⟩
+
+/-- non-vacuity: a node whose address changed, a vanished node, a new node, a filtered node -/
+example :
+    let env : Env := ⟨fun h => h.id == 9, fun _ => true, false, false, false⟩
+    let a : RHost := ⟨1, 1, 7, 7⟩
+    let b : RHost := ⟨2, 2, 8, 8⟩
+    let b' : RHost := ⟨3, 2, 18, 18⟩
+    let c : RHost := ⟨4, 3, 5, 5⟩
+    let f : RHost := ⟨5, 9, 6, 6⟩
+    let v := ((View.empty.addInitial env a).addInitial env b).addInitial env ⟨6, 4, 4, 4⟩
+    let r := v.refresh env [a, b', c, f]
+    r.2 = .ok ∧ r.1.ring.ids = [3, 2, 1] ∧ r.1.pools.map (·.1) = [1, 2, 3] ∧ r.1.pol.loc = [a, b', c] ∧
+    r.1.ring.getHostByIP 18 = (some b', true) ∧ r.1.ring.getHostByIP 8 = (none, false) := by decide
+
+/- Full statement for the selection policy (FAILS for the unchanged code): after a successful refresh
+every accepted reported host is in the policy's host lists. The lists are keyed by CONNECT ADDRESS
+(`cowHostList.add` refuses a host whose connect address equals an entry's, `remove(ip)` drops by connect
+address) while ring and pools are keyed by host id; `refreshRing` adds the reported hosts BEFORE it removes
+the vanished ones. A node replaced by a new host id on the same address is therefore refused by
+`policy.AddHost` (the dead node's entry has its address) and the dead node's removal then deletes the only
+entry of that address: the live node is in the ring and has a pool but is not offered for queries
+until a later `handleNodeConnected` / UP event adds it. -/
+
+/-- `C16_new_host_in_policy_partial`: after a refresh (whatever its result) every object stored in the ring
+under a host id that is NEW in the ring is in the fallback policy's lists — provided its connect address
+is used neither by a host of the prior ring nor by another accepted reported host. -/
+theorem C16_new_host_in_policy_partial (env : Env) (v : View) (ha : Agree env v) (reported : List RHost)
+    (s : RHost) (hs : (v.refresh env reported).1.ring.getHost s.id = some s) (hnew : s.id ∉ v.ring.ids)
+    (hfresh : FreshConn env v.ring reported s) :
+    s ∈ (v.refresh env reported).1.pol.loc ∨ s ∈ (v.refresh env reported).1.pol.rem := by
+  have hprov : ∀ y, y ∈ v.pol.loc ∨ y ∈ v.pol.rem → y ∈ v.ring.allHosts := by
+    intro y hy
+    have : y ∈ v.pol.all := (mem_all _ _).mpr (Or.inr hy)
+    exact List.mem_map.mpr ⟨(y.id, y), lookup_some_mem _ _ _ (ha.pol y this), rfl⟩
+  exact (newPol_refresh env v reported hprov).inpol s hs hnew hfresh
+
+/-- the excluded case is real (kernel-checked; replay on the real code: `reset evc rr - 2 1:0:2:2:1:1:2;2:3:3:0:1:1:2`
+then `evrefresh 1:0:2:2:1:1:2;3:3:3:0:1:1:2`): the node at address 8 (host id 2) is replaced by a node with host id 3
+on the same address — after the refresh the new node is in the ring and has a pool, but the policy
+has no entry for it (nor for anything at its address) -/
+theorem C16_cex_replaced_node_not_in_policy :
+    let env : Env := ⟨fun _ => false, fun _ => true, false, false, false⟩
+    let a : RHost := ⟨1, 1, 7, 7⟩
+    let b : RHost := ⟨2, 2, 8, 8⟩
+    let c : RHost := ⟨3, 3, 8, 8⟩
+    let v := (View.empty.addInitial env a).addInitial env b
+    let r := v.refresh env [a, c]
+    r.2 = .ok ∧ r.1.ring.getHost 3 = some c ∧ hasKey r.1.pools 3 = true ∧ r.1.pol.all = [a] ∧
+    ((r.1.connected env 3).pol.loc = [a, c]) := by decide
+
+/-! ### the event debouncer's buffer -/
+
+theorem foldl_debounceAdd (burst : List Ev) : ∀ (acc : List Ev), acc.length + burst.length ≤ eventBufferSize →
+    burst.foldl debounceAdd acc = acc ++ burst := by
+  induction burst with
+  | nil => intro acc _; simp
+  | cons e t ih =>
+    intro acc h
+    simp only [List.length_cons] at h
+    simp only [List.foldl_cons]
+    have hlt : acc.length < eventBufferSize := by omega
+    have : debounceAdd acc e = acc ++ [e] := by simp [debounceAdd, hlt]
+    rw [this, ih (acc ++ [e]) (by simp; omega)]
+    simp
+
+theorem foldl_debounceAdd_full (burst : List Ev) : ∀ (acc : List Ev), acc.length = eventBufferSize →
+    burst.foldl debounceAdd acc = acc := by
+  induction burst with
+  | nil => intro acc _; rfl
+  | cons e t ih =>
+    intro acc h
+    simp only [List.foldl_cons]
+    have : debounceAdd acc e = acc := by simp [debounceAdd, h]
+    rw [this]; exact ih acc h
+
+/- Full statement (FAILS for the unchanged code): the frames handed to `handleNodeEvent` for a burst are the
+burst. `eventDebouncer.debounce` drops every frame after the first 1000 of a window ("buffer full,
+dropping event frame"): the NEWEST events are lost, so the last status of an address may never be processed. -/
+
+/-- `C16_event_buffer_partial`: a burst of at most `eventBufferSize` (1000) frames within one debounce window is
+handed to `handleNodeEvent` unchanged -/
+theorem C16_event_buffer_partial (burst : List Ev) (h : burst.length ≤ eventBufferSize) : debounced burst = burst := by
+  unfold debounced
+  rw [foldl_debounceAdd burst [] (by simpa using h)]
+  simp
+
+theorem debounced_overflow (l : List Ev) (hl : l.length = eventBufferSize) (extra : List Ev) : debounced (l ++ extra) = l := by
+  unfold debounced
+  rw [List.foldl_append, foldl_debounceAdd l [] (by rw [hl]; exact Nat.le_of_eq (Nat.zero_add _))]
+  exact foldl_debounceAdd_full _ _ hl
+
+theorem lastStatus_replicate (n : Nat) (c : Change) (a : Nat) (hn : 0 < n) : lastStatus (List.replicate n (Ev.status c a)) a = some c := by
+  induction n with
+  | zero => omega
+  | succ k ih =>
+    simp only [List.replicate_succ, lastStatus]
+    cases k with
+    | zero => simp [lastStatus]
+    | succ j => rw [ih (by omega)]
+
+theorem lastStatus_append_status (l : List Ev) (c : Change) (a : Nat) : lastStatus (l ++ [Ev.status c a]) a = some c := by
+  induction l with
+  | nil => simp [lastStatus]
+  | cons e t ih =>
+    cases e with
+    | topology => simp only [List.cons_append, lastStatus]; exact ih
+    | status c' a' => simp only [List.cons_append, lastStatus]; rw [ih]
+
+/-- the excluded case is real: 1000 × UP then DOWN for one address within one window — the DOWN is dropped and
+the batch is processed as UP (replay on the real eventDebouncer: `evdeb 1000 u7,d7` delivers 1000 of 1001 frames) -/
+theorem C16_cex_event_buffer_drops_last :
+    let burst := List.replicate 1000 (Ev.status .up 7) ++ [Ev.status .down 7]
+    lastStatus burst 7 = some .down ∧ (debounced burst).length = 1000 ∧ lastStatus (debounced burst) 7 = some .up := by
+  intro burst
+  have hlen : (List.replicate 1000 (Ev.status .up 7)).length = eventBufferSize := List.length_replicate
+  have hd : debounced burst = List.replicate 1000 (Ev.status .up 7) := debounced_overflow _ hlen _
+  refine ⟨lastStatus_append_status _ _ _, ?_, ?_⟩
+  · rw [hd]; exact hlen
+  · rw [hd]; exact lastStatus_replicate 1000 .up 7 (by omega)
+
+/-! ### which rows of system.peers become hosts -/
+
+/-- `C16_valid_peers_partial`: on rows that carry a host id, `isValidPeer` as evaluated by the code is the
+property's notion of a valid peer row -/
+theorem C16_valid_peers_partial (r : Row) (h : r.id ≠ 0) : r.validPeer = r.validPeerSpec := by
+  have : (r.id != 0) = true := by simpa using h
+  simp [Row.validPeer, Row.validPeerSpec, this]
+
+/-- the excluded case is real (replay on the real code: `reset evc rr - 2 1:0:2:2:1:1:2` then
+`evrefresh 1:0:2:2:1:1:2;0:5:5:0:1:1:2`): a peers row with a NULL host_id and everything else present is accepted — the
+node enters ring, pools and policy under host id 00000000-0000-0000-0000-000000000000 -/
+theorem C16_cex_null_host_id_accepted :
+    let row : Row := ⟨0, 5, 5, 0, 1, 1, 2⟩
+    row.validPeerSpec = false ∧ row.validPeer = true ∧
+    getHosts ⟨1, 0, 2, 2, 1, 1, 2⟩ [row] 10 = some [⟨10, 1, 2, 2⟩, ⟨11, 0, 5, 5⟩] := by decide
 
 end C16
